@@ -572,7 +572,7 @@ fn read_env_dir(p: &Path, scope: &str, allow_sub: bool, out: &mut Vec<EnvEntry>)
             return Err(format!("unexpected directory {:?}", e.path()));
         }
         let bytes = fname.as_bytes();
-        let dot = bytes.iter().rposition(|b| *b == b'.').ok_or_else(|| format!("env file without suffix {:?}", e.path()))?;
+        let dot = bytes.iter().rposition(|b| *b == b'.').ok_or_else(|| format!("env file without suffix {:?}", e.file_name()))?;
         let beh = std::str::from_utf8(&bytes[dot + 1..]).map_err(|_| "suffix".to_string())?;
         if !["append", "default", "delim", "override", "prepend"].contains(&beh) {
             return Err(format!("unknown suffix {:?}", e.path()));
